@@ -434,3 +434,228 @@ Proof.
   - cbn in Lu. rewrite orb_false_r in Lu.
     rewrite (inv_excl c I j i u t (guard x) ltac:(auto) Hj Hi Lu) in Ht. discriminate.
 Qed.
+
+(* ---- the access table satisfies the discipline, for all parameters ------------------------------------------------------ *)
+Definition lt_rank (r : nat) (h : held) : bool := forallb (fun p => Nat.ltb (rank (fst p)) r) h.
+
+(* a piece of code that can be skipped when checking the order from h: it keeps the discipline and leaves the held
+   set as it found it *)
+Definition neutral (h : held) (a : thread) : Prop :=
+  forall rest, ordered_from h (a ++ rest) = ordered_from h rest.
+Definition lneutral (h : held) (a : thread) : Prop :=
+  forall rest, lockset_from h (a ++ rest) = lockset_from h rest.
+
+Lemma remove_held_head : forall l m h, remove_held l m ((l, m) :: h) = h.
+Proof. intros. cbn. rewrite lock_eqb_refl. destruct m; reflexivity. Qed.
+Lemma holds_mode_head : forall l m h, holds_mode l m ((l, m) :: h) = true.
+Proof. intros. cbn. rewrite lock_eqb_refl. destruct m; reflexivity. Qed.
+
+Lemma neutral_nil : forall h, neutral h [].
+Proof. intros h rest. reflexivity. Qed.
+Lemma neutral_acc : forall h x w, neutral h [Acc x w].
+Proof. intros h x w rest. reflexivity. Qed.
+Lemma neutral_app : forall h a b, neutral h a -> neutral h b -> neutral h (a ++ b).
+Proof. intros h a b Ha Hb rest. rewrite <- app_assoc. rewrite Ha. apply Hb. Qed.
+Lemma neutral_cons_acc : forall h x w a, neutral h a -> neutral h (Acc x w :: a).
+Proof. intros h x w a Ha rest. cbn. apply Ha. Qed.
+Lemma neutral_locked : forall h l m body,
+  lt_rank (rank l) h = true -> neutral ((l, m) :: h) body -> neutral h (locked l m body).
+Proof.
+  intros h l m body Hr Hb rest. unfold locked. cbn [app]. rewrite <- app_assoc. cbn [ordered_from].
+  fold (lt_rank (rank l) h). rewrite Hr. cbn [andb]. rewrite Hb. cbn [app ordered_from].
+  rewrite holds_mode_head, remove_held_head. reflexivity.
+Qed.
+Lemma neutral_flat_map : forall A h (f : A -> thread) xs, (forall x, neutral h (f x)) -> neutral h (flat_map f xs).
+Proof.
+  intros A h f xs H. induction xs as [|x xs IH]; cbn; [apply neutral_nil|]. apply neutral_app; auto.
+Qed.
+Lemma neutral_ordered : forall t, neutral [] t -> ordered_thread t = true.
+Proof. intros t H. unfold ordered_thread. rewrite <- (app_nil_r t). rewrite H. reflexivity. Qed.
+
+Lemma lneutral_nil : forall h, lneutral h [].
+Proof. intros h rest. reflexivity. Qed.
+Lemma lneutral_app : forall h a b, lneutral h a -> lneutral h b -> lneutral h (a ++ b).
+Proof. intros h a b Ha Hb rest. rewrite <- app_assoc. rewrite Ha. apply Hb. Qed.
+Lemma lneutral_cons_acc : forall h x w a,
+  (holds_mode (guard x) MW h || (negb w && holds_mode (guard x) MR h)) = true ->
+  lneutral h a -> lneutral h (Acc x w :: a).
+Proof. intros h x w a Hg Ha rest. cbn [app lockset_from]. rewrite Hg. cbn [andb]. apply Ha. Qed.
+Lemma lneutral_locked : forall h l m body, lneutral ((l, m) :: h) body -> lneutral h (locked l m body).
+Proof.
+  intros h l m body Hb rest. unfold locked. cbn [app]. rewrite <- app_assoc. cbn [lockset_from].
+  rewrite Hb. cbn [app lockset_from]. rewrite remove_held_head. reflexivity.
+Qed.
+Lemma lneutral_flat_map : forall A h (f : A -> thread) xs, (forall x, lneutral h (f x)) -> lneutral h (flat_map f xs).
+Proof.
+  intros A h f xs H. induction xs as [|x xs IH]; cbn; [apply lneutral_nil|]. apply lneutral_app; auto.
+Qed.
+Lemma lneutral_lockset : forall t, lneutral [] t -> lockset_thread t = true.
+Proof. intros t H. unfold lockset_thread. rewrite <- (app_nil_r t). rewrite H. reflexivity. Qed.
+
+Ltac guard_ok := cbn; rewrite ?Nat.eqb_refl, ?cache_eqb_refl; cbn; rewrite ?orb_true_r; reflexivity.
+
+Ltac neutral_tac :=
+  repeat first
+    [ apply neutral_nil
+    | apply neutral_acc
+    | apply neutral_locked; [reflexivity|]
+    | apply neutral_cons_acc
+    | apply neutral_flat_map; intro
+    | apply neutral_app
+    | match goal with |- neutral _ (if ?b then _ else _) => destruct b end
+    | match goal with |- neutral _ (?f _ _ _) => unfold f | |- neutral _ (?f _ _) => unfold f | |- neutral _ (?f _) => unfold f
+                    | |- neutral _ ?f => unfold f end ].
+
+Ltac lneutral_tac :=
+  repeat first
+    [ apply lneutral_nil
+    | apply lneutral_locked
+    | apply lneutral_cons_acc; [guard_ok|]
+    | apply lneutral_flat_map; intro
+    | apply lneutral_app
+    | match goal with |- lneutral _ (if ?b then _ else _) => destruct b end
+    | match goal with |- lneutral _ [Acc ?x ?w] => change [Acc x w] with (Acc x w :: []) end
+    | match goal with |- lneutral _ (?f _ _ _) => unfold f | |- lneutral _ (?f _ _) => unfold f | |- lneutral _ (?f _) => unfold f
+                    | |- lneutral _ ?f => unfold f end ].
+
+Theorem put_thread_disciplined : forall s ds cbs,
+  ordered_thread (put_thread s ds cbs) = true /\ lockset_thread (put_thread s ds cbs) = true.
+Proof.
+  intros s ds cbs. split.
+  - apply neutral_ordered. unfold put_thread. neutral_tac.
+  - apply lneutral_lockset. unfold put_thread. lneutral_tac.
+Qed.
+
+Theorem get_thread_disciplined : forall s ds ts,
+  ordered_thread (get_thread s ds ts) = true /\ lockset_thread (get_thread s ds ts) = true.
+Proof.
+  intros. split.
+  - apply neutral_ordered. unfold get_thread. neutral_tac.
+  - apply lneutral_lockset. unfold get_thread. lneutral_tac.
+Qed.
+
+Theorem delete_thread_disciplined : forall s ds ts,
+  ordered_thread (delete_thread s ds ts) = true /\ lockset_thread (delete_thread s ds ts) = true.
+Proof.
+  intros. split.
+  - apply neutral_ordered. unfold delete_thread. neutral_tac.
+  - apply lneutral_lockset. unfold delete_thread. lneutral_tac.
+Qed.
+
+Theorem savers_disciplined : forall d s a t,
+  (ordered_thread (save_dimension d) = true /\ lockset_thread (save_dimension d) = true) /\
+  (ordered_thread (save_segment s) = true /\ lockset_thread (save_segment s) = true) /\
+  (ordered_thread (save_dict a) = true /\ lockset_thread (save_dict a) = true) /\
+  (ordered_thread (save_tree t a) = true /\ lockset_thread (save_tree t a) = true).
+Proof.
+  intros. repeat split; first [ apply neutral_ordered; neutral_tac | apply lneutral_lockset; lneutral_tac ].
+Qed.
+
+Theorem tasks_disciplined : forall c d s a t,
+  (ordered_thread (writeback_task c) = true /\ lockset_thread (writeback_task c) = true) /\
+  (ordered_thread (evict_task CDims (save_dimension d)) = true /\ lockset_thread (evict_task CDims (save_dimension d)) = true) /\
+  (ordered_thread (evict_task CSegs (save_segment s)) = true /\ lockset_thread (evict_task CSegs (save_segment s)) = true) /\
+  (ordered_thread (evict_task CDicts (save_dict a)) = true /\ lockset_thread (evict_task CDicts (save_dict a)) = true) /\
+  (ordered_thread (evict_task CTrees (save_tree t a)) = true /\ lockset_thread (evict_task CTrees (save_tree t a)) = true).
+Proof.
+  intros. repeat split; first [ apply neutral_ordered; destruct c; neutral_tac | apply lneutral_lockset; destruct c; lneutral_tac ].
+Qed.
+
+(* the threads of the property's quantifier: any number of ingests, renders, deletes / retention runs, write-back
+   and eviction task runs, savers — over any series, dimensions and trees *)
+Inductive table_thread : thread -> Prop :=
+| tt_put : forall s ds cbs, table_thread (put_thread s ds cbs)
+| tt_get : forall s ds ts, table_thread (get_thread s ds ts)
+| tt_delete : forall s ds ts, table_thread (delete_thread s ds ts)
+| tt_writeback : forall c, table_thread (writeback_task c)
+| tt_evict_dims : forall d, table_thread (evict_task CDims (save_dimension d))
+| tt_evict_segs : forall s, table_thread (evict_task CSegs (save_segment s))
+| tt_evict_dicts : forall a, table_thread (evict_task CDicts (save_dict a))
+| tt_evict_trees : forall t a, table_thread (evict_task CTrees (save_tree t a))
+| tt_save_dim : forall d, table_thread (save_dimension d)
+| tt_save_seg : forall s, table_thread (save_segment s)
+| tt_save_dict : forall a, table_thread (save_dict a)
+| tt_save_tree : forall t a, table_thread (save_tree t a).
+
+Lemma table_thread_disciplined : forall t, table_thread t -> ordered_thread t = true /\ lockset_thread t = true.
+Proof.
+  intros t H. destruct H.
+  - apply put_thread_disciplined.
+  - apply get_thread_disciplined.
+  - apply delete_thread_disciplined.
+  - apply (tasks_disciplined c 0 0 0 0).
+  - apply (tasks_disciplined CDims d 0 0 0).
+  - apply (tasks_disciplined CDims 0 s 0 0).
+  - apply (tasks_disciplined CDims 0 0 a 0).
+  - apply (tasks_disciplined CDims 0 0 a t).
+  - apply (savers_disciplined d 0 0 0).
+  - apply (savers_disciplined 0 s 0 0).
+  - apply (savers_disciplined 0 0 a 0).
+  - apply (savers_disciplined 0 0 a t).
+Qed.
+
+Lemma forall_forallb : forall A (P : A -> Prop) (f : A -> bool) l,
+  (forall x, P x -> f x = true) -> Forall P l -> forallb f l = true.
+Proof. intros A P f l H F. induction F; cbn; auto. rewrite (H x), IHF; auto. Qed.
+
+Theorem storage_threads_no_deadlock : forall ts sched,
+  Forall table_thread ts -> stuck (run_sched sched (init_config ts)) = false.
+Proof.
+  intros ts sched F. apply ordered_threads_never_stuck.
+  eapply forall_forallb; [|exact F]. intros t Ht. apply table_thread_disciplined. exact Ht.
+Qed.
+
+Theorem storage_threads_lockset : forall ts sched,
+  Forall table_thread ts ->
+  forallb lockset_thread ts = true /\ ~ racing (run_sched sched (init_config ts)).
+Proof.
+  intros ts sched F.
+  assert (L : forallb lockset_thread ts = true).
+  { eapply forall_forallb; [|exact F]. intros t Ht. apply table_thread_disciplined. exact Ht. }
+  split; auto. apply lockset_threads_never_race; auto.
+  eapply forall_forallb; [|exact F]. intros t Ht. apply table_thread_disciplined. exact Ht.
+Qed.
+
+(* a segment's write section excludes every other section of that segment, in every reachable configuration:
+   what allows the coarse model to treat Segment.Put (with all its per-bucket callbacks) and the read section of a
+   render as single steps *)
+Theorem segment_sections_exclusive : forall ts sched i j t u s,
+  Forall table_thread ts ->
+  let c := run_sched sched (init_config ts) in
+  i <> j -> nth_error c i = Some t -> nth_error c j = Some u ->
+  holds_w (LSeg s) (ts_held t) = true -> holds (LSeg s) (ts_held u) = false.
+Proof.
+  intros ts sched i j t u s F c. apply writer_excludes_everybody.
+  eapply forall_forallb; [|exact F]. intros t0 Ht. apply table_thread_disciplined. exact Ht.
+Qed.
+
+(* ---- refutation examples for the pre-fix tables --------------------------------------------------------------------------- *)
+(* D9 (before ffa16da): PopulateTimeline, the metadata getters and Intersection accessed without their locks *)
+Example d9_table_fails_lockset : lockset_thread (get_thread_d9 0 [0; 1] [0; 3]) = false.
+Proof. reflexivity. Qed.
+(* before 6f0bdb0: the write-back / eviction goroutine serialized a dimension without its lock *)
+Example unlocked_dimension_save_fails_lockset : lockset_thread (evict_task CDims (save_dimension_unlocked 1)) = false.
+Proof. reflexivity. Qed.
+(* ... and such a table does race: an ingest inserting into dimension 0 next to a saver reading it *)
+Example unlocked_dimension_save_races :
+  racing (run_sched [0; 0; 0; 0; 0; 0; 0; 0; 0; 0; 0; 0; 0; 0; 0; 0]
+            (init_config [put_thread 0 [0] []; save_dimension_unlocked 0])).
+Proof.
+  exists 0, 1. eexists. eexists. exists (LocDimKeys 0), true, false.
+  split; [discriminate|]. cbn. repeat split; auto.
+Qed.
+(* before 560e1ec: Intersection kept the read locks of all its dimensions, in the caller's map order: not ordered,
+   and with two renders in opposite orders, an ingest (Dimension.Insert) and a delete (Dimension.Delete) the
+   writer-pending rule of sync.RWMutex produces a configuration in which nobody can move *)
+Example nested_table_not_ordered : ordered_thread (get_thread_nested 0 [0; 1] []) = false.
+Proof. reflexivity. Qed.
+Definition dl_threads : list thread :=
+  [get_thread_nested 0 [0; 1] []; get_thread_nested 0 [1; 0] [];
+   locked (LDim 0) MW [Acc (LocDimKeys 0) true]; locked (LDim 1) MW [Acc (LocDimKeys 1) true]].
+Example nested_table_deadlocks : stuck (run_sched [0; 1; 0; 1; 2; 3] (init_config dl_threads)) = true.
+Proof. reflexivity. Qed.
+(* the repaired table with the same clients is never stuck (instance of the theorem), e.g. on that schedule *)
+Example repaired_table_same_schedule :
+  stuck (run_sched [0; 1; 0; 1; 2; 3] (init_config
+    [get_thread 0 [0; 1] []; get_thread 0 [1; 0] []; put_thread 0 [0] []; delete_thread 1 [1] []])) = false.
+Proof. reflexivity. Qed.
